@@ -27,11 +27,18 @@ func (e *Endpoint) ResumeOptions(p *PKI) []dtls.Option { return e.options(p) }
 // not touched (call Detach first). A panic inside the library call is returned as an error whose
 // text starts with "panic:".
 func (e *Endpoint) ResumeFrom(p *PKI, st *dtls.State) (ne *Endpoint, err error) {
+	return e.ResumeFromAt(p, st, e.Addr)
+}
+
+// ResumeFromAt is ResumeFrom with the resumed endpoint bound to addr (a NEW MemConn). With
+// addr != e.Addr the resumed endpoint sends from a new local address: e's (detached) binding stays,
+// so whatever the peer still sends to the old address reaches a closed conn and is lost.
+func (e *Endpoint) ResumeFromAt(p *PKI, st *dtls.State, addr Addr) (ne *Endpoint, err error) {
 	w := e.W
-	ne = &Endpoint{W: w, Name: e.Name + "'", IsClient: e.IsClient, Addr: e.Addr, Peer: e.Peer, Cfg: e.Cfg, KeyLog: &lockedBuf{}, cidCtr: e.cidCtr}
+	ne = &Endpoint{W: w, Name: e.Name + "'", IsClient: e.IsClient, Addr: addr, Peer: e.Peer, Cfg: e.Cfg, KeyLog: &lockedBuf{}, cidCtr: e.cidCtr}
 	ne.Log = &logSink{name: ne.Name, w: w}
 	w.Skew()
-	ne.PC = w.NewConn(e.Addr)
+	ne.PC = w.NewConn(addr)
 	defer func() {
 		if r := recover(); r != nil {
 			err = fmt.Errorf("panic: ResumeWithOptions: %v", r)
